@@ -370,7 +370,9 @@ void ezc3d::c3d::point(const std::string &name){
             dummy_frames.push_back(frame);
         point(dummy_frames);
     } else {
-        updateParameters({name});
+        std::string trimmedName(name);
+        ezc3d::removeTrailingSpaces(trimmedName); // as Point::name() does when frames exist
+        updateParameters({trimmedName});
     }
 }
 
@@ -414,7 +416,9 @@ void ezc3d::c3d::analog(const std::string &name)
             dummy_frames.push_back(frame);
         analog(dummy_frames);
     } else {
-        updateParameters({}, {name});
+        std::string trimmedName(name);
+        ezc3d::removeTrailingSpaces(trimmedName); // as Channel::name() does when frames exist
+        updateParameters({}, {trimmedName});
     }
 }
 
